@@ -305,6 +305,15 @@ func paths(maxSeg int) []string {
 		}
 	}
 	rec(nil)
+	// foreign separators: a layer that canonicalises more than the layer that validated (backslash
+	// accepted as a separator further down) would fold these climbing paths after the check
+	for _, p := range append([]string{}, out...) {
+		if strings.Contains(p, "..") && strings.Contains(p, "/") {
+			out = append(out, strings.ReplaceAll(p, "/", "\\"), strings.Replace(strings.TrimPrefix(p, "/"), "/", "\\", 1))
+		} else if p == ".." {
+			out = append(out, "..\\n", "n\\..\\..\\n")
+		}
+	}
 	// dedupe, keep order
 	seen := map[string]bool{}
 	var u []string
@@ -678,7 +687,7 @@ func replay(w json.RawMessage) (*fw.Violation, error) {
 
 func init() {
 	fw.Register(&fw.Check{ID: "C03", Level: "exploration",
-		Rule: "all path strings of <=3 (quick) / <=4 (thorough) segments over {n, '.', '..', ''} with and without leading '/', x all 16 operations (both arguments of the copy operations, and the path used as Filespace() argument followed by write/list/remove) x 24 view kinds (memory, disk, encrypted incl. stores written through the encryption, read-only, sub-path, cache-backed; depth 1 and 2), each on a fresh store with canaries outside the view root, every case additionally after an 'outside sweep' (all read-type operations on every store node through the object the view was derived from and through a sibling view), climbing paths additionally after a harmless prelude (write / list / mkdir+remove) through the same view object; distinct = (view, op, path) cases, non-trivial = all (every case touches a populated store)",
+		Rule: "all path strings of <=3 (quick) / <=4 (thorough) segments over {n, '.', '..', ''} with and without leading '/' (climbing paths also with backslash as separator, all and first only), x all 16 operations (both arguments of the copy operations, and the path used as Filespace() argument followed by write/list/remove) x 24 view kinds (memory, disk, encrypted incl. stores written through the encryption, read-only, sub-path, cache-backed; depth 1 and 2), each on a fresh store with canaries outside the view root, every case additionally after an 'outside sweep' (all read-type operations on every store node through the object the view was derived from and through a sibling view), climbing paths additionally after a harmless prelude (write / list / mkdir+remove) through the same view object; distinct = (view, op, path) cases, non-trivial = all (every case touches a populated store)",
 		Run:  run, Replay: replay,
 		Assumptions: []string{"segment bound as stated; the 'randomly beyond the bound' part of the quantifier is not claimed", "one store shape; the view root itself counts as inside", "a result is a leak when it returns content/listing/stat of a node outside the root (canary contents and names are unique)"}})
 }
